@@ -120,6 +120,45 @@ def g3_lcp_chain(rng, lcp, count=3):
     return sorted(base + t for t in tails)
 
 
+def g3_lcp_fence(rng, lcp):
+    """A bucket's worth of long strings around one pair that shares exactly `lcp` bytes: a string before the
+    pair that shares less, the pair, and strings after it that leave the common prefix early — so that a prefix
+    range ends on the second string of the pair while the bucket goes on (the right-limit scans of the
+    front-coding kinds must step over a string whose shared length is exactly `lcp`)."""
+    A = ALPHABETS[26]
+    pre = bytes(rng.choice(A) for _ in range(lcp))
+    t = lambda k: bytes(rng.choice(A) for _ in range(k))
+    cut1, cut2 = max(1, lcp // 3), max(2, lcp // 2)
+    S = {bytes([0x41]) + t(3),                              # sorts first (a header)
+         pre[:cut1] + bytes([0x21]) + t(2),                 # shares cut1 bytes, sorts before the pair
+         pre + bytes([0x62]) + t(2), pre + bytes([0x64]) + t(1),          # the pair: exactly `lcp` shared bytes
+         pre[:cut2] + bytes([0x7b]) + t(2),                 # after the pair, shares only cut2 bytes
+         pre[:cut1] + bytes([0x7c]) + t(1),
+         bytes([0x7d]) + t(2)}
+    return sorted(S)
+
+
+def fence_patterns(S, cap):
+    """Patterns at which a prefix range begins or ends: for adjacent members a < b with l common bytes,
+    a[:l] (both match), a[:l+1] and b[:l+1] (the range ends on a / begins on b)."""
+    out = []
+    pairs = []
+    for i in range(len(S) - 1):
+        a, b = S[i], S[i + 1]
+        l = 0
+        while l < len(a) and l < len(b) and a[l] == b[l]:
+            l += 1
+        pairs.append((l, a, b))
+    # long common prefixes first (VByte boundaries), then evenly spread
+    pairs.sort(key=lambda x: -x[0])
+    keep = pairs[:max(2, cap // 2)] + pairs[max(2, cap // 2)::max(1, len(pairs) // max(1, cap // 2))]
+    for l, a, b in keep:
+        for q in (a[:l], a[:l + 1], b[:l + 1], a[:max(1, l // 2)]):
+            if q and q not in out:
+                out.append(q)
+    return out[:3 * cap]
+
+
 def g3_common_tail(rng, n, keylen, taillen):
     """Pairs `k`, `k + TAIL` with one long tail shared by every pair: with small buckets every
     internal string has the same front-coded form, which a grammar compressor folds into one long rule."""
@@ -207,7 +246,7 @@ def prefixes_of(rng, S, cap):
     ext = [p + bytes([rng.choice([0x02, 0x61, 0x62, 0xFE])]) for p in ps[: max(1, cap // 3)]]
     extra = [bytes([0x02]), bytes([0xFE]), S[-1] + b"zz", max(S, key=len) + b"a"]
     out, seen = [], set()
-    for x in ps + ext + extra:
+    for x in ps + ext + extra + fence_patterns(S, max(2, cap // 3)):
         if x not in seen:
             seen.add(x)
             out.append(x)
